@@ -27,7 +27,7 @@ META = {
     'level_note': 'One-node server: the cursors-partition leader change on a 3-node cluster is not exercised; the '
                   'purge on becoming leader is exercised through pause/resume (conformance level). Overlap of calls is '
                   'driven through the verif gate cursors.fetch.scanned (SetCursor calls never overlap each other). '
-                  'Bounds: design quick <= 4 sets (1 failed) / 7 steps / 2 faults, thorough <= 4 sets / 8 steps, two splitting clients; '
+                  'Bounds: design quick <= 4 sets (2 failed) / 6 steps / 2 faults, thorough <= 4 sets / 7 steps, two splitting clients; '
                   'replayed behaviours <= 16 steps.',
     'design_ref': 'DESIGN.md section 6/C11',
 }
